@@ -77,6 +77,7 @@ type rcase struct {
 	Hang    int               `json:"hang"`
 	Hi      []int             `json:"hi"`
 	Lo      []int             `json:"lo"`
+	LoFrom  int               `json:"lofrom"` // gaps from this one on are judged against lo (earlier ones: drift)
 	Sclass  map[string]string `json:"sclass"`
 	Iclass  map[string]string `json:"iclass"`
 	Exp     struct {
@@ -110,7 +111,7 @@ func at(tab []int, k int) time.Duration {
 
 const tolDefaultMs = 500
 
-// tolerance of the (drift only) lower bound of a gap: the tick is consumed before the call is stamped
+// tolerance of the lower bound of a gap: the tick is consumed before the call is stamped
 const lowTol = 100 * time.Millisecond
 
 const maxRecorded = 40 // calls of Notify recorded per delivery
@@ -584,6 +585,7 @@ type verdict struct {
 	unexplained  []string // the observations do not tell what happened in an attempt: not judged
 	offnominal   int      // attempts in which something else happened than scripted (load)
 	obligations  int      // recoverable failures after which another attempt was due
+	lowJudged    int      // gaps judged against the lower bound of the back-off
 	whys         map[string]int
 	outsideModel bool // number of attempts / result not among the runs of the specification
 }
@@ -692,8 +694,19 @@ func judgeRun(c *rcase, o *runObs) *verdict {
 					k, a.Why, ms(a.end), ms(o.ret), ms(o.end))
 			}
 			if !last {
-				if nx := o.Attempts[k]; nx.start < a.start+at(c.Lo, k)-lowTol && nx.start < a.end+at(c.Lo, k)-lowTol {
-					add("drift", "gap_below_backoff", "attempt %d at %s .. %s, attempt %d already at %s (lower bound of the back-off %dms)", k, ms(a.start), ms(a.end), k+1, ms(nx.start), at(c.Lo, k).Milliseconds())
+				// "with backoff": the k-th gap is never below the back-off's lower bound (counted from the
+				// start of the failed attempt; the tick is consumed just before the call is stamped)
+				nx := o.Attempts[k]
+				if c.LoFrom > 0 && k >= c.LoFrom {
+					v.lowJudged++
+				}
+				if nx.start < a.start+at(c.Lo, k)-lowTol {
+					class := "drift"
+					if c.LoFrom > 0 && k >= c.LoFrom {
+						class = ""
+					}
+					add(class, "gap_below_backoff", "attempt %d (the %d. consecutive failure) began at %s, attempt %d already at %s: gap %dms, the back-off after %d failures is at least %dms (0.5 x 500ms x 1.5^%d)",
+						k, k, ms(a.start), k+1, ms(nx.start), (nx.start - a.start).Milliseconds(), k, at(c.Lo, k).Milliseconds(), k-1)
 				}
 			}
 		case "open": // 429: the statement does not decide; compare with the notifier's rule
@@ -850,6 +863,8 @@ func TestRetryReplay(t *testing.T) {
 		t.Fatal(err)
 	}
 	rng.Shuffle(len(items), func(i, j int) { items[i], items[j] = items[j], items[i] })
+	// the long flushes are launched first: they end with the rest of the wave
+	sort.SliceStable(items, func(i, j int) bool { return items[i].c.Dl > 3000 && items[j].c.Dl <= 3000 })
 
 	// launches spread so that about 450 deliveries begin per second
 	window := time.Duration(len(items)) * time.Second / 450
@@ -935,6 +950,10 @@ func TestRetryReplay(t *testing.T) {
 			}
 		}
 		res.Count("retry_obligations", it.v.obligations)
+		res.Count("retry_lowbound_judged", it.v.lowJudged)
+		if c.Dl > 3000 {
+			res.Count("retry_cases_long_flush", 1)
+		}
 		for w, k := range it.v.whys {
 			res.Count("retry_why_"+w, k)
 		}
